@@ -265,3 +265,12 @@ func (c *Conc) Decode(s string) ([]string, bool) {
 	}
 	return out, true
 }
+
+// WithBranches returns a copy of c that spells the branch tokens with the k-th branch-string set.
+func WithBranches(c *Conc, k int) *Conc {
+	b := branchSets[((k%len(branchSets))+len(branchSets))%len(branchSets)]
+	d := *c
+	d.Name = c.Name + "+" + b.name
+	d.LD, d.LI, d.MD, d.MI = b.ld, b.li, b.md, b.mi
+	return &d
+}
